@@ -27,7 +27,7 @@ var Alphabets = map[string][]string{
 
 // ByteAlphabets: representatives of every lexer character class / every way to cut a rune.
 var ByteAlphabets = map[string][]string{
-	"lex":  {"a", "5", " ", "\t", "\"", "'", "/", "\\", "-", ":", "(", "*", ".", "!", "é", "\xff"},
+	"lex":  {"a", "5", " ", "\t", "\"", "'", "/", "\\", "-", ":", "(", "*", ".", "!", "é", "\xff", "٣"},
 	"utf8": {"a", "\x00", "\x80", "\xc3", "\xa9", "\xe4", "\xb8", "\xad", "\xf0"},
 }
 
